@@ -574,3 +574,11 @@ pub fn replay(ctx: &mut Ctx, stage: &str, case: &Value) -> Result<(), String> {
         other => Err(format!("unknown stage {other}")),
     }
 }
+
+/// valid option JSON documents under a generated presentation, for the hostile-input engine (C15)
+pub fn rendered() -> impl Strategy<Value = (bool, String)> {
+    (opts(), pres()).prop_map(|(o, p)| {
+        let v = Renderer { pres: Some(&p), bin_i: 0, num_i: 0, differing: 0 }.render(&o);
+        (o.create, serde_json::to_string(&v).unwrap())
+    })
+}
